@@ -281,6 +281,8 @@ class NumpyMixin:
         def ufunc2(f_num, out='bool', name=''):
             def g(I, x, y):
                 L.use(f'numpy.{name}: pointwise')
+                x = L.list_to_arr(I, x)
+                y = L.list_to_arr(I, y)
                 if not isinstance(x, SArr) and not isinstance(y, SArr):
                     x2 = coerce(x if isinstance(x, SV) else lift(x), NUM)
                     y2 = coerce(y if isinstance(y, SV) else lift(y), NUM)
@@ -312,6 +314,12 @@ class NumpyMixin:
         m['less_equal'] = ufunc2(th.num_le, name='less_equal')
         m['greater'] = ufunc2(lambda x, y: th.num_lt(y, x), name='greater')
         m['greater_equal'] = ufunc2(lambda x, y: th.num_le(y, x), name='greater_equal')
+        def logical_not(I, x):
+            L.use('numpy.logical_not: pointwise')
+            if x.dtype != 'bool':
+                raise Undecided('logical_not on a non-bool array')
+            return L._like(x, lambda i, e=x.elem: z3.Not(e(i)), 'bool')
+        m['logical_not'] = logical_not
         m['logical_or'] = logical(z3.Or)
         m['logical_and'] = logical(z3.And)
 
@@ -390,6 +398,13 @@ class NumpyMixin:
             L.use('numpy.argsort: a permutation of the indices that sorts the 1-d array increasingly, nan last '
                   '(assumed; ties in unspecified order)')
             n = x.n
+            if getattr(x, 'perm_inverse', None) is not None and getattr(x, 'perm', None) is not None:
+                # argsort of a permutation (itself the result of an argsort) is its inverse permutation
+                L.use('numpy.argsort of a permutation: the inverse permutation (assumed)')
+                Qx, Px = x.perm_inverse, x.perm
+                r = SArr(lambda k, Qx=Qx: Qx[k], n, 'int', L.new_buf(), False, (SV(INT, n),))
+                r.perm, r.perm_inverse = Qx, Px
+                return r
             P = z3.Const(I.path.name('perm'), z3.ArraySort(z3.IntSort(), z3.IntSort()))
             Q = z3.Const(I.path.name('perm_inv'), z3.ArraySort(z3.IntSort(), z3.IntSort()))
             i, j = z3.Int(I.path.name('i')), z3.Int(I.path.name('j'))
@@ -405,6 +420,7 @@ class NumpyMixin:
                 I.path.assume(z3.ForAll([i, j], z3.Implies(z3.And(0 <= i, i < j, j < n), le(e(P[i]), e(P[j])))))
             r = SArr(lambda k, P=P: P[k], n, 'int', L.new_buf(), False, (SV(INT, n),))
             r.perm_inverse = Q
+            r.perm = P
             return r
         m['argsort'] = argsort
 
@@ -435,11 +451,47 @@ class NumpyMixin:
         m['ma'] = ma
         return ns
 
+    def list_to_arr(self, I, x):
+        '''a Python list of 0-d values as a 1-d array (np.asarray of a list of scalars)'''
+        if not isinstance(x, list) or not x:
+            return x
+        elems = []
+        for v in x:
+            if isinstance(v, SArr) and v.scalar:
+                elems.append((_to_num(v.elem, v.dtype)(_Z0)))
+            elif isinstance(v, SV) and v.typ.kind in ('Num', 'Int'):
+                elems.append(coerce(v, NUM).t)
+            elif isinstance(v, (int, float)):
+                elems.append(th.num_const(v))
+            else:
+                return x
+
+        def elem(i, elems=elems):
+            t = elems[-1]
+            for k in range(len(elems) - 2, -1, -1):
+                t = z3.If(i == k, elems[k], t)
+            return t
+        return SArr(elem, z3.IntVal(len(elems)), 'num', self.new_buf(), False, (len(elems),))
+
     def scalar_arr(self, I, term, dtype):
         return SArr(lambda i, t=term: t, z3.IntVal(1), dtype, self.new_buf(), True, ())
 
     def np_sum(self, I, x):
-        raise Undecided('np.sum')
+        '''np.sum over an array or a masked selection: an uninterpreted function SUM(elements, mask, n) -- assumed to depend only on the
+        multiset of selected elements (order independence is an assumption, not a theorem here)'''
+        if isinstance(x, MaskedSel):
+            arr, mask = x.arr, x.mask.elem
+        elif isinstance(x, SArr):
+            arr, mask = x, (lambda i: z3.BoolVal(True))
+        else:
+            raise Undecided('np.sum of this argument')
+        i = z3.Int('i!sum')
+        e = _to_num(arr.elem, arr.dtype)
+        A = z3.Lambda([i], e(i))
+        M = z3.Lambda([i], mask(i))
+        SUM = th.func('np_sum', z3.ArraySort(z3.IntSort(), th.Num), z3.ArraySort(z3.IntSort(), z3.BoolSort()), z3.IntSort(), th.Num)
+        self.use('numpy.sum: uninterpreted SUM(elements, mask, n); depends only on the selected multiset (assumed)')
+        return self.scalar_arr(I, SUM(A, M, arr.n), 'num')
 
 
 class ShapeTok:
